@@ -12,13 +12,14 @@ env.ensure_deps(); env.setup()
 
 props = [json.loads(l) for l in open(os.path.join(VERIF, "properties.jsonl"))]
 checks, na = [], []
+claimed = set(open(os.path.join(VERIF, "claimed.txt")).read().split())
 for p in props:
     pid = p["id"]
     try:
         m = importlib.import_module("vf.props." + pid.lower())
     except ModuleNotFoundError:
         m = None
-    if m is None or not getattr(m, "READY", False):
+    if m is None or not getattr(m, "READY", False) or pid not in claimed:
         na.append({"property_id": pid, "reason": getattr(m, "NOT_APPLICABLE", None) or
                    "runtime-monitoring check for this property is not built yet (work in progress); the technique applies, see DESIGN.md section 2"})
         continue
